@@ -60,6 +60,8 @@ def execute(sc):
     asyncio.set_event_loop_policy(rt.VPolicy())
     keep = []
     runners = {}
+    loops = {}
+    running = set()
 
     def watch(loop, name):
         def on_running(l):
@@ -147,11 +149,21 @@ def execute(sc):
         loop = rt.VLoop(name)
         keep.append(loop)
         asyncio.set_event_loop(loop)
-        target = T if cs.get('to', 'T') == 'T' else loop
+        loops[name] = loop
+        to = cs.get('to', 'T')
+        if to in ('T', 'own'):
+            target = T if to == 'T' else loop
+        else:
+            # another caller's own loop, which that caller's thread is running natively (run_until_complete)
+            while to not in running:
+                ctl.block(state)
+            target = loops[to]
 
         async def main():
             c = cs['c']
-            ctl.log('CallStart', c=c, thr=name, to='T' if target is T else 'own', fn=cs.get('fn', 'ensure_aw'),
+            running.add(name)
+            ctl.unblock(state)
+            ctl.log('CallStart', c=c, thr=name, to=to, fn=cs.get('fn', 'ensure_aw'),
                     kind=cs['aw'].get('kind', 'coro'), out=cs['aw'].get('out', 'val'))
             try:
                 aw = make_aw(cs, target)
